@@ -73,7 +73,10 @@ func gen(seed int64, tier string, idx int) *pipe.Scenario {
 		steps = append(steps, pipe.Step{AtEvent: 0, Op: "wait"})
 	}
 	// the pipeline can afterwards be started again and resumes without a gap
-	steps = append(steps, pipe.Step{AtEvent: 0, Op: "quiet"}, pipe.Step{AtEvent: 0, Op: "start"})
+	// (the wait above may have been answered by a run that was already dead when the
+	// force stop arrived; give the engine until the stored status is terminal - bounded
+	// by a harness watchdog - before the user starts the pipeline again)
+	steps = append(steps, pipe.Step{AtEvent: 0, Op: "await-terminal"}, pipe.Step{AtEvent: 0, Op: "quiet"}, pipe.Step{AtEvent: 0, Op: "start"})
 	sc.Steps = steps
 	return sc
 }
@@ -95,6 +98,20 @@ func hooks(sc *pipe.Scenario) *pipe.Hooks {
 				d.Block()
 			}
 			r.Log.Append(rig.Ev{Kind: rig.KNote, Note: "blocked", Comp: "dlq"})
+			return true
+		case "await-terminal":
+			r.Log.WaitFor(func(evs []rig.Ev) bool {
+				for i := len(evs) - 1; i >= 0; i-- {
+					if evs[i].Kind == rig.KCommit && evs[i].Snap != nil {
+						switch evs[i].Snap.Status[sc.Topo.Pipeline] {
+						case "Degraded", "UserStopped", "SystemStopped":
+							return true
+						}
+						return false
+					}
+				}
+				return false
+			}, 10e9)
 			return true
 		case "await-recovering":
 			r.Log.WaitFor(func(evs []rig.Ev) bool {
@@ -248,8 +265,14 @@ func judge(out *pipe.Outcome, ix *pipe.Index) pipe.Verdict {
 				v.Stats["degraded_with_other_cause_observed"]++
 			}
 		}
-		if sawRunning {
+		if sawRunning && !(duringRecovery && status == "Degraded" && strings.Contains(errTxt, "force stop")) {
+			// (a recovery restart that was already building the next run when the force
+			// stop arrived publishes that run - the status says Running for a moment -
+			// and force stops it at once: it ends failed-by-force-stop, which is what
+			// the property asks for)
 			add("automatic-restart-after-force-stop", "the pipeline went back to Running after a force stop without a user start", fs)
+		} else if sawRunning {
+			v.Stats["restarts_in_progress_force_stopped_on_publication"]++
 		}
 	}
 	// (5)/(6) restartable, resumes from the durable position without a gap
